@@ -105,11 +105,35 @@ fn check_find_line(
     }
 }
 
+fn filetype_of(path: &str) -> FileType {
+    let at = if path.ends_with(".gz") {
+        FileTypeArchive::Gz
+    } else if path.ends_with(".bz2") {
+        FileTypeArchive::Bz2
+    } else if path.ends_with(".xz") {
+        FileTypeArchive::Xz
+    } else if path.ends_with(".lz4") {
+        FileTypeArchive::Lz4
+    } else {
+        FileTypeArchive::Normal
+    };
+    FileType::Text { archival_type: at, encoding_type: FileTypeTextEncoding::Utf8Ascii }
+}
+
+/// `lines <file> <lo> <hi> <seed> [<plain-reference-file>]`
+/// When the file is compressed (suffix) the reference bytes come from the
+/// plain reference file and only forward walks are made (a streamed file is
+/// read front to back).
 fn cmd_lines(args: &[String]) -> i32 {
     let path = &args[0];
     let lo: u64 = args[1].parse().unwrap();
     let hi: u64 = args[2].parse().unwrap();
     let seed: u64 = args[3].parse().unwrap();
+    let ft = filetype_of(path);
+    let streamed = !matches!(ft, FileType::Text { archival_type: FileTypeArchive::Normal, .. });
+    if streamed {
+        return cmd_lines_streamed(path, &args[4], lo, hi, ft);
+    }
     let data = std::fs::read(path).unwrap();
     let lines = ref_lines(&data);
     let mut mism: Vec<String> = Vec::new();
@@ -153,6 +177,50 @@ fn cmd_lines(args: &[String]) -> i32 {
             queries += 1;
             let fo = (rng.next() % (data.len() as u64 + 2)) as usize;
             check_find_line(&mut lr, &data, &lines, fo, bsz, "random", &mut mism);
+        }
+        if mism.len() > 20 {
+            break;
+        }
+    }
+    println!("{{\"pairs\": {}, \"queries\": {}, \"lines\": {}, \"mismatches\": {}}}", pairs, queries, lines.len(), mism.len());
+    for m in mism.iter().take(10) {
+        println!("MISMATCH {}", m);
+    }
+    if mism.is_empty() { 0 } else { 1 }
+}
+
+fn cmd_lines_streamed(path: &String, refpath: &String, lo: u64, hi: u64, ft: FileType) -> i32 {
+    let data = std::fs::read(refpath).unwrap();
+    let lines = ref_lines(&data);
+    let mut mism: Vec<String> = Vec::new();
+    let mut queries: u64 = 0;
+    let mut pairs: u64 = 0;
+    for bsz in lo..=hi {
+        pairs += 1;
+        let mut lr = match LineReader::new(path.clone(), ft, bsz) {
+            Ok(v) => v,
+            Err(e) => {
+                mism.push(format!("bsz={} LineReader::new Err {}", bsz, e));
+                continue;
+            }
+        };
+        let mut fo = 0usize;
+        let mut steps = 0usize;
+        loop {
+            queries += 1;
+            let want = line_containing(&lines, fo);
+            if !check_find_line(&mut lr, &data, &lines, fo, bsz, "forward-streamed", &mut mism) {
+                break;
+            }
+            match want {
+                Some(k) => fo = lines[k].1,
+                None => break,
+            }
+            steps += 1;
+            if steps > lines.len() + 2 {
+                mism.push(format!("bsz={} forward walk does not terminate", bsz));
+                break;
+            }
         }
         if mism.len() > 20 {
             break;
